@@ -65,6 +65,28 @@ CHECKS = {
         "concretised by real bisection, evaluated on both paths and compared with the reference in the property's metric; TLC recomputes the class, judges the deviation, compares "
         "the recorded panel decomposition with the model's (diagnostic) and demands every class was exercised.",
    note="Exploration: per-class samples, aspect <= 32, dyadic levels as listed in the evidence. Trusted: reference integrator (self-checked against published constants and a second grading), scipy.special.exp1."),
+ "C04": dict(level="exploration", design="§5 C04", engine="panels",
+   technique="TLC enumeration of Panels.tla pairs (all 13 Allen relations x space classes); TLC decides acausality from the integer end points and judges zero / sign flags of six observation channels",
+   text="For members of every (space relation, Allen relation) class on every curve the value of bilform (both switch values), of bilform_matrix (inline, serial, pool) and of "
+        "evaluate / evaluate_exact / potential at the five time positions relative to the trial element is recorded with exact-zero, sign and positivity flags; TLC recomputes "
+        "Acausal from the integers and demands acausal => == 0.0, causal => >= -1e-15*scale and > 0 when the reference exceeds 1e-250; whole-mesh zero patterns (rows = test, columns = trial) "
+        "are compared entry by entry for all three matrix paths.",
+   note="Exploration per class; reference only for the positivity clause. Trusted: reference integrator for scale/positivity."),
+ "C11": dict(level="exploration", design="§5 C11", engine="panels",
+   technique="TLC-checked split kinds of Panels.tla (SplitTiles) + class-stratified sums over real children / virtual quarters judged by TLC",
+   text="For causal pairs of every class and the 15 combinations of split kinds the sum of bilform over the pieces (children obtained by real bisection and as DummyElement quarters, "
+        "both paths) is compared with the unsplit entry in the metric 1e-7*sqrt(D D); TLC verifies the pieces are exactly SplitPieces of the model, the class label and the deviation, and class coverage.",
+   note="Self-consistency; scale from the reference diagonal entries. Aspect <= 16 before splitting so that time halves stay <= 32."),
+ "C12": dict(level="exploration", design="§5 C12", engine="panels",
+   technique="TLC-defined group actions of Panels.tla (Exchange, ShiftT, RotX, ReflX) + bitwise / tolerance comparison of bilform on moved pairs judged by TLC",
+   text="For causal pairs of every class: exchange of the space intervals and dyadic common time shifts must reproduce bilform bit for bit; quarter turns and the reflection of the squares, dyadic "
+        "rotations and the reflection of the circle must reproduce it within 1e-7*sqrt(D D), including moves that change the space class (across the seam, onto another side). TLC recomputes the moved pair.",
+   note="Moved elements concretised by real bisection; L-shape only exchange and shift. No oracle beyond the diagonal scale."),
+ "C13": dict(level="exploration", design="§5 C13", engine="stmesh",
+   technique="every STMesh.tla state within a budget (TLC dump) rebuilt as a real mesh, assembled, eigvalsh of the scaled symmetric part; threshold judged by TLC (Judge.tla)",
+   text="STMesh supplies every mesh reachable within a primitive-bisection budget from each closed curve's initial mesh (not a sample); each is rebuilt by real bisections, assembled with "
+        "bilform_matrix and lambda_min(D^-1/2 (A+A^T)/2 D^-1/2) is quantised; TLC demands > 0.01 for every mesh, for the 4x4 child blocks of the hierarchical estimator and for larger random meshes.",
+   note="Exhaustive within the listed budgets (flagged if capped). Trusted: numpy.linalg.eigvalsh."),
 }
 
 NOT_YET = {}
